@@ -308,6 +308,8 @@ func checkC12(p *Prog, r *Report) {
 	fc.ruleDescriptorProvenance(r, mem)
 	fc.ruleNoAliasing(r, mem)
 	fc.ruleCreateGuard(r, mem)
+	fc.ruleCreateResult(r, mem, fc.direntField(mem))
+	fc.ruleCreateResult(r, dir, "")
 	// R12d
 	for _, im := range fc.impls {
 		var T types.Type = im.Named
